@@ -96,6 +96,7 @@ class Ctx:
         self.ring = None         # set by symx.ring
         self.forks = 0
         self.implied = 0
+        self.mul_pairs = set()
         self.side = []           # bit-vector backend: exact no-overflow conditions of this path
 
     # -- activation
@@ -473,6 +474,13 @@ class SymZ:
             a, b = self.t, o2.t
             if a.get_id() > b.get_id():
                 a, b = b, a
+            # commutativity instance: ordering by term id is only canonical for syntactically equal
+            # arguments; arithmetic-equal but differently built arguments may sort the other way round
+            if not a.eq(b):
+                key = (a.get_id(), b.get_id())
+                if key not in _CUR.mul_pairs:
+                    _CUR.mul_pairs.add(key)
+                    _CUR.add_fact(mul_uf()(a, b) == mul_uf()(b, a))
             return SymZ(mul_uf()(a, b), *iv)
         r = SymZ(self.t * o2.t, *iv)
         if _is_bv():
